@@ -24,8 +24,10 @@ class InboundRules(Rule):
         c = d.conn
         if d.desync or any(fx["tag"] == "malformed" for fx in d.frame_fx):
             return
-        if d.aborted or d.excs or (d.coarse and len(d.frame_fx) > 1):
+        if d.excs or (d.coarse and len(d.frame_fx) > 1):
             return
+        # (an abort in a dispatch whose packets are all well-formed excuses nothing:
+        # a well-formed PUBLISH must be delivered and answered)
         if c is None or not (c.profile & SUBB):
             return
         handler = bool(L.w.conns[c.ci].handlers.get("onPublish"))
